@@ -381,6 +381,51 @@ func (x *c15) runSlowCreatedCallback(rng *rand.Rand) {
 	w, m, rec := h.w, h.m, h.rec
 	defer w.Shutdown()
 	c := h.clients[0]
+	if rng.Intn(2) == 0 {
+		// variant: the server is closed while the created-callback of a fresh allocation is still
+		// running (preferably one on a TCP control connection, which outlives Server.Close): the
+		// allocation ends with the server, and its deleted-event follows its created-event
+		for _, cl := range h.clients {
+			if cl.IsTCP && !cl.Closed {
+				c = cl
+			}
+		}
+		m.Refresh(c, sim.U32(600)) // (no allocation yet: this only fetches a nonce)
+		w.SetEventDelay("alloc+", 3*time.Second)
+		tid := w.NewTID()
+		b := wire.NewBuilder(wire.MethodAllocate, wire.ClassRequest, tid)
+		b.Add(wire.AttrRequestedTransport, []byte{17, 0, 0, 0})
+		c.AddAuth(b)
+		m.Track(c, tid, wire.MethodAllocate)
+		_ = c.SendRaw(b.Bytes())
+		time.Sleep(200 * time.Millisecond)
+		_ = w.Srv.Close()
+		x.serverClosed = true
+		w.SetEventDelay("alloc+", 0)
+		w.Sleep(8 * time.Second)
+		m.AuditIgnoring(c)
+		// judged while the client still holds its control connection open (its closing would clean
+		// up whatever the server forgot)
+		if n := w.Srv.AllocationCount(); n != 0 {
+			rec.Violate("remains-after-close", "allocations", "AllocationCount=%d eight seconds after Server.Close (the server was closed while the created-callback of that allocation was running; the client is still connected)", n)
+		}
+		plus, minus := 0, 0
+		for _, ev := range w.Events() {
+			switch ev.Kind {
+			case "alloc+":
+				plus++
+			case "alloc-":
+				minus++
+			}
+		}
+		if plus != minus {
+			rec.Violate("events-vs-state", "count", "%d allocation-created and %d allocation-deleted events eight seconds after Server.Close", plus, minus)
+		}
+		rec.FP("teardown/server-closed-during-created-callback/tcp=%v", c.IsTCP)
+		x.finish("server-closed-during-created-callback")
+
+		return
+	}
 	life := uint32(1 + rng.Intn(3))
 	delay := time.Duration(life)*time.Second + time.Duration(500+rng.Intn(3000))*time.Millisecond
 	w.SetEventDelay("alloc+", delay)
